@@ -2,9 +2,49 @@
 use crate::common::*;
 use crate::pairhist::*;
 
+
+/// LP tokens of a vault that somebody sent to the vault itself by a plain cw20 Transfer are stranded there (nobody can redeem them).
+/// The Share query still equals what a withdrawal of that many shares pays. (Monitor-only probe: the vault model has no LP transfer.)
+fn vault_stranded_lp_probe(out: &mut Out) {
+    use crate::w_vault::{self as wv, Op};
+    use cosmwasm_std::Uint128;
+    for cw20 in [false, true] {
+        let mut w = match wv::deploy(cw20, (DEC / 100, DEC / 200, 0), [0, 9_000_000, 5_000_000, 3_000_000, 3_000_000]) { Ok(w) => w, Err(_) => return };
+        let rp = serde_json::json!({"kind": "vault_stranded_lp_probe", "asset_cw20": cw20, "script": "alice deposits 2 000 000, bob 1 500 000; alice sends 300 000 LP to the vault itself (cw20 Transfer); \
+                 bob, then alice ask Share { amount } and withdraw that amount: the payout equals the quote"});
+        let (alice, bob) = (6usize, 7usize);
+        out.monitor_evals += 1;
+        if w.exec(&Op::Deposit { u: alice, amount: Uint128::new(2_000_000), sent: Uint128::new(2_000_000) }) != 0 || w.exec(&Op::Deposit { u: bob, amount: Uint128::new(1_500_000), sent: Uint128::new(1_500_000) }) != 0 {
+            out.monitor_fail("C14", "probe: the deposits failed", rp.clone()); continue;
+        }
+        let (lp, vault) = (w.lp.clone(), w.vault.to_string());
+        let a = w.addr(alice);
+        if cw_multi_test::Executor::execute_contract(&mut w.app, a, lp, &cw20::Cw20ExecuteMsg::Transfer { recipient: vault, amount: Uint128::new(300_000) }, &[]).is_err() {
+            out.monitor_fail("C14", "probe: the LP transfer to the vault failed", rp.clone()); continue;
+        }
+        for (u, amount) in [(bob, 123_456u128), (alice, 700_001), (bob, 1)] {
+            let who = w.addr(u).to_string();
+            let quote = w.share(amount);
+            let b0 = w.asset_bal(&who);
+            let c = w.exec(&Op::Withdraw { u, amount: Uint128::new(amount) });
+            let paid = w.asset_bal(&who) - b0;
+            out.monitor_evals += 1;
+            match (c, quote) {
+                (0, Ok(q)) => if q != paid { out.monitor_fail("C14", &format!("vault with LP stranded in it: Share {{ {} }} answered {} but the withdrawal paid {}", amount, q, paid), rp.clone()); },
+                (0, Err(_)) => out.monitor_fail("C14", "vault Share query failed but the withdrawal succeeded", rp.clone()),
+                _ => out.count("probe:stranded_lp_withdraw_refused"),
+            }
+        }
+        out.count("probe:vault_stranded_lp");
+    }
+}
+
 pub fn run(args: &Args) {
     // replay of a recorded pair history (router / pure cases are re-run by the generators with the recorded seed)
-    if let Some(f) = &args.replay { std::process::exit(replay_file("C14", f, &format!("{}/scratch", args.out))); }
+    if let Some(f) = &args.replay {
+        if replay_kind(f) == "vault_stranded_lp_probe" { let mut o = Out::new(&args.out); replay_probe(&mut o, &mut |o| vault_stranded_lp_probe(o)); }
+        std::process::exit(replay_file("C14", f, &format!("{}/scratch", args.out)));
+    }
     let mut out = Out::new(&args.out);
     out.rule = "pair: histories on a real constant-product pair where every swap is preceded by the Simulation query in the same state (pending protocol fees non-zero after the first swaps); \
                 router: factory + 3 pairs over assets A,B,C + router, 1-3 hop chains incl. routes revisiting a pair, donations to the router, native and cw20 first offers; \
@@ -34,5 +74,6 @@ pub fn run(args: &Args) {
     // stableswap pair and three-asset pool: Simulation issued right before every swap of their pool-history streams
     crate::c03::histories(&mut out, &mut rng, (args.n / 3).max(20));
     crate::c04_pool::pool_histories(&mut out, &mut rng, (args.n / 3).max(20));
+    vault_stranded_lp_probe(&mut out);
     out.finish();
 }
